@@ -32,6 +32,10 @@ def owner(kind, r):
     return OWNER[kind].get(r, DEFAULT_OWNER[kind])
 
 
+TRANSPARENT = {"samples": ("copy", "pickle", "roundtrip"), "data": ("copy", "pickle"), "prior": (), "sampler": ()}     # History.TransparentOf
+RESETS = {"data": ("rebuild",)}                                                                                       # History.ResetsOf
+
+
 def cls_of(kind, op):
     k = KINDS[kind]
     return ("read" if op in k["reads"] else "mut" if op in k["muts"] else "deriv" if op in k["derivs"] else
@@ -444,7 +448,10 @@ def execute(case):
                 e["exc"] = "%s: %s" % (type(ex).__name__, str(ex)[:160])
                 events.append(e)
                 break
-            content.append(op)
+            if op in RESETS.get(kind, ()):         # a second construction from the caller's arrays starts over
+                content = []
+            elif op not in TRANSPARENT[kind]:      # a copy / pickle / round trip hands back the same content: the twin skips it
+                content.append(op)
         events.append(e)
     if caller.get("dir"):
         import shutil
